@@ -103,12 +103,22 @@ class Summaries:
         self.classes = classes
         # constructors by class (a class without __init__ inherits: fall back to all constructors)
         self.ctor = {}
+        bases = {}
         for t in trees:
             for c in ast.walk(t):
                 if isinstance(c, ast.ClassDef):
+                    bases[c.name] = [b.id for b in c.bases if isinstance(b, ast.Name)] if all(isinstance(b, ast.Name) for b in c.bases) else None
                     for m in c.body:
                         if isinstance(m, ast.FunctionDef) and m.name == "__init__":
                             self.ctor[c.name] = m
+        # a class without its own __init__ uses the one of its (single, package) base class
+        self.bases = bases
+        self.ctor_owner = {c: c for c in self.ctor}
+        for _ in range(4):
+            for cname, bs in bases.items():
+                if cname not in self.ctor and bs is not None and len(bs) == 1 and bs[0] in self.ctor:
+                    self.ctor[cname] = self.ctor[bs[0]]
+                    self.ctor_owner[cname] = self.ctor_owner[bs[0]]
         for name, fns in defs.items():
             w, c, unk = set(), set(), False
             for fn in fns:
@@ -295,8 +305,22 @@ class Summaries:
             w, c, unk = self._scan(m)
             for cn in c:
                 if cn == "__init__":
-                    w = w | self.direct.get("__init__", set())
-                    unk = unk or self.unknown.get("__init__", False)
+                    # super().__init__(..): the constructor of the single base class, when that can be told
+                    owner = self.ctor_owner.get(name)
+                    bs = self.bases.get(owner)
+                    if bs is not None and len(bs) == 1 and bs[0] in self.classes and bs[0] != owner and getattr(self, "_ctor_depth", 0) < 4:
+                        self._ctor_depth = getattr(self, "_ctor_depth", 0) + 1
+                        try:
+                            w2, u2 = self.call_effect(ast.Call(func=ast.Name(id=bs[0], ctx=ast.Load()), args=[], keywords=[]))
+                        finally:
+                            self._ctor_depth -= 1
+                        w = w | w2
+                        unk = unk or u2
+                    elif bs is not None and len(bs) <= 1 and (not bs or bs[0] in ("Exception", "object", "dict", "list", "ValueError", "SyntaxError")):
+                        pass  # a built-in base: its constructor touches no object of the package
+                    else:
+                        w = w | self.direct.get("__init__", set())
+                        unk = unk or self.unknown.get("__init__", False)
                 elif cn in self.defs:
                     w = w | self.direct[cn]
                     unk = unk or self.unknown[cn]
@@ -522,6 +546,16 @@ def ends_with_jump(block):
     return bool(block) and isinstance(block[-1], JUMPS)
 
 
+_ORD_FLIP = {ast.Lt: ast.GtE, ast.GtE: ast.Lt, ast.Gt: ast.LtE, ast.LtE: ast.Gt}
+
+
+def _is_number(e):
+    """evidently an int: a length or an int literal (so that `not a < b` is `a >= b`)"""
+    if isinstance(e, ast.Constant):
+        return type(e.value) is int
+    return isinstance(e, ast.Call) and isinstance(e.func, ast.Name) and e.func.id == "len"
+
+
 def negate(e):
     if isinstance(e, ast.UnaryOp) and isinstance(e.op, ast.Not):
         return e.operand
@@ -529,6 +563,8 @@ def negate(e):
         flip = {ast.Eq: ast.NotEq, ast.NotEq: ast.Eq, ast.Is: ast.IsNot, ast.IsNot: ast.Is, ast.In: ast.NotIn, ast.NotIn: ast.In}
         if type(e.ops[0]) in flip:
             return ast.Compare(left=e.left, ops=[flip[type(e.ops[0])]()], comparators=e.comparators)
+        if type(e.ops[0]) in _ORD_FLIP and (_is_number(e.left) or _is_number(e.comparators[0])):
+            return ast.Compare(left=e.left, ops=[_ORD_FLIP[type(e.ops[0])]()], comparators=e.comparators)
     if isinstance(e, ast.BoolOp):
         return ast.BoolOp(op=ast.Or() if isinstance(e.op, ast.And) else ast.And(), values=[negate(v) for v in e.values])
     if isinstance(e, ast.Constant) and isinstance(e.value, bool):
@@ -545,7 +581,8 @@ class _Expr(ast.NodeTransformer):
             inner = node.operand
             if isinstance(inner, (ast.BoolOp, ast.UnaryOp)) or (
                 isinstance(inner, ast.Compare) and len(inner.ops) == 1
-                and isinstance(inner.ops[0], (ast.Eq, ast.NotEq, ast.Is, ast.IsNot, ast.In, ast.NotIn))
+                and (isinstance(inner.ops[0], (ast.Eq, ast.NotEq, ast.Is, ast.IsNot, ast.In, ast.NotIn)) or (
+                    type(inner.ops[0]) in _ORD_FLIP and (_is_number(inner.left) or _is_number(inner.comparators[0]))))
             ):
                 return self.visit(negate(inner)) if isinstance(inner, ast.BoolOp) else negate(inner)
         return node
@@ -578,7 +615,8 @@ class _Expr(ast.NodeTransformer):
         t = node.test
         # a if not c else b  ->  b if c else a      (positive test first)
         if (isinstance(t, ast.UnaryOp) and isinstance(t.op, ast.Not)) or (
-                isinstance(t, ast.Compare) and len(t.ops) == 1 and isinstance(t.ops[0], (ast.NotIn, ast.IsNot, ast.NotEq))):
+                isinstance(t, ast.Compare) and len(t.ops) == 1 and (isinstance(t.ops[0], (ast.NotIn, ast.IsNot, ast.NotEq)) or (
+                    isinstance(t.ops[0], (ast.Lt, ast.LtE)) and (_is_number(t.left) or _is_number(t.comparators[0]))))):
             node = ast.IfExp(test=negate(t), body=node.orelse, orelse=node.body)
             t = node.test
         # max(f(x) for x in S) + k if S else c   ->   max((f(x) for x in S), default=c - k) + k     (S a built-in container:
@@ -618,6 +656,11 @@ class _Expr(ast.NodeTransformer):
                 return ast.Call(func=ast.Name(id="__prod", ctx=ast.Load()), args=[node.args[1]], keywords=[])
         if fname in ("math.prod", "prod") and len(node.args) == 1 and not node.keywords:
             return ast.Call(func=ast.Name(id="__prod", ctx=ast.Load()), args=[node.args[0]], keywords=[])
+        # all(c for G)  ->  not any(not c for G)
+        if isinstance(f, ast.Name) and f.id == "all" and len(node.args) == 1 and isinstance(node.args[0], ast.GeneratorExp) and not node.keywords:
+            g = node.args[0]
+            inner = ast.Call(func=ast.Name(id="any", ctx=ast.Load()), args=[ast.GeneratorExp(elt=negate(g.elt), generators=g.generators)], keywords=[])
+            return ast.UnaryOp(op=ast.Not(), operand=self.visit(inner))
         # any(a and b for G)  ->  any(b for G if a)       (truth of the whole is the same; a is evaluated first either way)
         if isinstance(f, ast.Name) and f.id == "any" and len(node.args) == 1 and isinstance(node.args[0], ast.GeneratorExp):
             g = node.args[0]
@@ -803,8 +846,13 @@ def n_comp(block, owner, field):
         nxt = block[i + 1] if i + 1 < len(block) else None
         done = False
         # acc = [] / {} / set()  +  for ...: acc.append(v)
-        if isinstance(st, ast.Assign) and len(st.targets) == 1 and isinstance(st.targets[0], ast.Name) and isinstance(nxt, ast.For) and not nxt.orelse:
-            acc = st.targets[0].id
+        if isinstance(st, ast.Assign) and len(st.targets) == 1 and isinstance(nxt, ast.For) and not nxt.orelse and (
+                isinstance(st.targets[0], ast.Name) or (
+                    isinstance(st.targets[0], ast.Attribute) and isinstance(st.targets[0].value, ast.Name)
+                    and not any(isinstance(n, ast.Call) for n in ast.walk(nxt))
+                    and sum(1 for n in ast.walk(nxt) if isinstance(n, ast.Attribute) and n.attr == st.targets[0].attr) == 1
+                    and not _stmt_stores(nxt, st.targets[0].value.id))):
+            acc = unparse(st.targets[0])
             v = st.value
             kind0 = "list" if isinstance(v, ast.List) and not v.elts else "dict" if isinstance(v, ast.Dict) and not v.keys else \
                 "set" if isinstance(v, ast.Call) and unparse(v) == "set()" else None
@@ -854,7 +902,19 @@ def n_comp(block, owner, field):
                 body = cur.body
                 gens = _mk_generators(parts)
                 anyc = ast.Call(func=ast.Name(id="any", ctx=ast.Load()), args=[ast.GeneratorExp(elt=cur.test, generators=gens)], keywords=[])
-                if len(body) == 1 and isinstance(body[0], ast.Return) and (body[0].value is None or pure_read(body[0].value)) \
+                nxt_ret = block[i + 1] if i + 1 < len(block) else None
+                at_end = nxt_ret is None and isinstance(owner, (ast.FunctionDef, ast.AsyncFunctionDef)) and field == "body"
+                if len(body) == 1 and isinstance(body[0], ast.Return) and body[0].value is not None and len(parts) == 1 \
+                        and any(_uses(n.id, body[0]) for n in ast.walk(parts[0][1]) if isinstance(n, ast.Name)) \
+                        and (at_end or (isinstance(nxt_ret, ast.Return) and (nxt_ret.value is None or isinstance(nxt_ret.value, ast.Constant)))) \
+                        and not any(isinstance(n, (ast.NamedExpr, ast.Yield, ast.YieldFrom, ast.Await)) for n in ast.walk(cur)):
+                    default = ast.Constant(value=None) if at_end or nxt_ret.value is None else nxt_ret.value
+                    g2 = _mk_generators(parts + [("if", cur.test)])
+                    out.append(ast.Return(value=ast.Call(func=ast.Name(id="next", ctx=ast.Load()),
+                                                         args=[ast.GeneratorExp(elt=body[0].value, generators=g2), default], keywords=[])))
+                    i += 1 if at_end else 2
+                    done = True
+                elif len(body) == 1 and isinstance(body[0], ast.Return) and (body[0].value is None or pure_read(body[0].value)) \
                         and not any(_uses(n.id, body[0]) for p in parts for n in ast.walk(p[1]) if isinstance(n, ast.Name)):
                     out.append(ast.If(test=anyc, body=body, orelse=[], lineno=getattr(st, "lineno", 0)))
                     i += 1
@@ -902,17 +962,27 @@ def n_comp(block, owner, field):
                         i += 1
                         done = True
         # d.update({k: v for ..})   (k, v do not read d)   ->   for ..: d[k] = v
-        if not done and isinstance(st, ast.Expr) and isinstance(st.value, ast.Call) and isinstance(st.value.func, ast.Attribute) \
-                and st.value.func.attr == "update" and isinstance(st.value.func.value, ast.Name) and len(st.value.args) == 1 and not st.value.keywords \
-                and isinstance(st.value.args[0], ast.DictComp) and not _uses(st.value.func.value.id, st.value.args[0]) \
+        upd = st.value if isinstance(st, ast.Expr) and isinstance(st.value, ast.Call) and isinstance(st.value.func, ast.Attribute) \
+            and st.value.func.attr == "update" and len(st.value.args) == 1 and not st.value.keywords else None
+        if upd is not None and isinstance(upd.args[0], (ast.ListComp, ast.GeneratorExp)) and isinstance(upd.args[0].elt, ast.Tuple) \
+                and len(upd.args[0].elt.elts) == 2 and not any(isinstance(x, ast.Starred) for x in upd.args[0].elt.elts):
+            # a sequence of (key, value) pairs is what a dict comprehension produces
+            upd.args[0] = ast.DictComp(key=upd.args[0].elt.elts[0], value=upd.args[0].elt.elts[1], generators=upd.args[0].generators)
+        recv = upd.func.value if upd is not None else None
+        recv_ok = isinstance(recv, ast.Name) or (
+            isinstance(recv, ast.Attribute) and isinstance(recv.value, ast.Name) and upd is not None
+            and not any(isinstance(n, ast.Attribute) and n.attr == recv.attr for n in ast.walk(upd.args[0]))
+            and not any(isinstance(n, ast.Call) for n in ast.walk(upd.args[0])))
+        if not done and upd is not None and recv_ok \
+                and isinstance(st.value.args[0], ast.DictComp) and not (isinstance(recv, ast.Name) and _uses(recv.id, st.value.args[0])) \
                 and not any(g.is_async for g in st.value.args[0].generators):
             comp = st.value.args[0]
-            d = st.value.func.value.id
+            d = None
             _FRESH[0] += 1
             names = {n.id for g in comp.generators for n in ast.walk(g.target) if isinstance(n, ast.Name)}
             ren = _Rename({n: f"__u{_FRESH[0]}_{n}" for n in names})
             first_iter = comp.generators[0].iter
-            body = [ast.Assign(targets=[ast.Subscript(value=ast.Name(id=d, ctx=ast.Load()), slice=ren.visit(copy.deepcopy(comp.key)), ctx=ast.Store())],
+            body = [ast.Assign(targets=[ast.Subscript(value=copy.deepcopy(recv), slice=ren.visit(copy.deepcopy(comp.key)), ctx=ast.Store())],
                                value=ren.visit(copy.deepcopy(comp.value)), lineno=getattr(st, "lineno", 0))]
             for gi in range(len(comp.generators) - 1, -1, -1):
                 g = comp.generators[gi]
@@ -977,8 +1047,40 @@ def _known_membership(block):
     return block
 
 
+def _is_bool(e):
+    if isinstance(e, ast.Compare):
+        return True
+    if isinstance(e, ast.UnaryOp) and isinstance(e.op, ast.Not):
+        return True
+    if isinstance(e, ast.BoolOp):
+        return all(_is_bool(v) for v in e.values)
+    return isinstance(e, ast.Call) and isinstance(e.func, ast.Name) and e.func.id in ("any", "all", "isinstance", "bool", "callable", "hasattr", "issubclass")
+
+
 def n_flow(block, owner, field):
     block = _known_membership(block)
+    # `x = A` ; `if not x: x = B`  ->  `x = A or B`
+    pre = []
+    for st in block:
+        prev = pre[-1] if pre else None
+        if (
+            isinstance(st, ast.If) and not st.orelse and len(st.body) == 1 and isinstance(st.body[0], ast.Assign) and len(st.body[0].targets) == 1
+            and isinstance(st.body[0].targets[0], ast.Name) and isinstance(st.test, ast.UnaryOp) and isinstance(st.test.op, ast.Not)
+            and isinstance(st.test.operand, ast.Name) and st.test.operand.id == st.body[0].targets[0].id
+            and isinstance(prev, ast.Assign) and len(prev.targets) == 1 and isinstance(prev.targets[0], ast.Name)
+            and prev.targets[0].id == st.test.operand.id and not _uses(st.test.operand.id, st.body[0].value) and not _uses(st.test.operand.id, prev.value)
+        ):
+            pre[-1] = ast.Assign(targets=prev.targets, value=ast.BoolOp(op=ast.Or(), values=[prev.value, st.body[0].value]), lineno=getattr(prev, "lineno", 0))
+        else:
+            pre.append(st)
+    block = pre
+    # `if c: return True` ; `return False`  ->  `return c` / `return not c`    (c evidently a bool)
+    if len(block) >= 2 and isinstance(block[-1], ast.Return) and isinstance(block[-2], ast.If) and not block[-2].orelse and len(block[-2].body) == 1 \
+            and isinstance(block[-2].body[0], ast.Return) and all(
+                isinstance(r.value, ast.Constant) and isinstance(r.value.value, bool) for r in (block[-1], block[-2].body[0])) \
+            and block[-1].value.value != block[-2].body[0].value.value and _is_bool(block[-2].test):
+        t = block[-2].test
+        block = block[:-2] + [ast.Return(value=t if block[-2].body[0].value.value else negate(t))]
     # `x = K` ; `if c: x = b`   (K a constant, c and b do not read x)   ->   `x = b if c else K`
     pre = []
     for st in block:
@@ -1000,7 +1102,8 @@ def n_flow(block, owner, field):
     for st in block:
         if isinstance(st, ast.If) and st.orelse and not ends_with_jump(st.body) and not ends_with_jump(st.orelse) and (
                 (isinstance(st.test, ast.UnaryOp) and isinstance(st.test.op, ast.Not)) or (
-                    isinstance(st.test, ast.Compare) and len(st.test.ops) == 1 and isinstance(st.test.ops[0], (ast.NotIn, ast.IsNot, ast.NotEq)))):
+                    isinstance(st.test, ast.Compare) and len(st.test.ops) == 1 and (isinstance(st.test.ops[0], (ast.NotIn, ast.IsNot, ast.NotEq)) or (
+                        isinstance(st.test.ops[0], (ast.Lt, ast.LtE)) and (_is_number(st.test.left) or _is_number(st.test.comparators[0])))))):
             st = ast.If(test=negate(st.test), body=st.orelse, orelse=st.body, lineno=getattr(st, "lineno", 0))
         pre.append(st)
     block = pre
@@ -1335,6 +1438,13 @@ def n_split(block, owner, field):
             path = st.targets[1]
             out.append(ast.Assign(targets=[path], value=st.value, lineno=getattr(st, "lineno", 0)))
             out.append(ast.Assign(targets=[st.targets[0]], value=ast.Attribute(value=ast.Name(id=path.value.id, ctx=ast.Load()), attr=path.attr, ctx=ast.Load()),
+                                  lineno=getattr(st, "lineno", 0)))
+            continue
+        if isinstance(st, ast.Assign) and len(st.targets) == 2 and isinstance(st.targets[1], ast.Name) and isinstance(st.targets[0], ast.Attribute) \
+                and isinstance(st.targets[0].value, ast.Name) and st.targets[0].value.id != st.targets[1].id and not _uses(st.targets[1].id, st.value):
+            path = st.targets[0]
+            out.append(ast.Assign(targets=[path], value=st.value, lineno=getattr(st, "lineno", 0)))
+            out.append(ast.Assign(targets=[st.targets[1]], value=ast.Attribute(value=ast.Name(id=path.value.id, ctx=ast.Load()), attr=path.attr, ctx=ast.Load()),
                                   lineno=getattr(st, "lineno", 0)))
             continue
         if isinstance(st, ast.Assign) and len(st.targets) == 1 and isinstance(st.targets[0], ast.Tuple) and isinstance(st.value, ast.Tuple) \
@@ -2406,6 +2516,8 @@ def _substitute_equivalents(cur_tree, ref_tree, summ, canon=None):
     for q, (fn, _, cls) in cf.items():
         if q not in rf and fn.name.startswith("_") and not (fn.name.startswith("__") and fn.name.endswith("__")):
             new_helpers[("self" if cls is not None else "", fn.name)] = fn
+    for key, (rel_, h) in getattr(summ, "foreign_helpers", {}).items():
+        new_helpers.setdefault(key, h)
     for q, (fn, container, cls) in cf.items():
         if q not in rf:
             continue
